@@ -82,7 +82,73 @@ func registeredPlugins(repo string, dirs ...string) ([]string, error) {
 	return out, nil
 }
 
+// registeredParsingCallbacks returns (directive, function name) of every
+// casket.RegisterParsingCallback(serverType, "<directive>", <func>) call below the directories.
+func registeredParsingCallbacks(repo string, dirs ...string) ([][2]string, error) {
+	var out [][2]string
+	for _, d := range dirs {
+		root := filepath.Join(repo, d)
+		err := filepath.Walk(root, func(p string, info os.FileInfo, err error) error {
+			if err != nil || !info.IsDir() {
+				return err
+			}
+			fset := token.NewFileSet()
+			pkgs, err := parser.ParseDir(fset, p, func(fi os.FileInfo) bool { return !strings.HasSuffix(fi.Name(), "_test.go") }, 0)
+			if err != nil {
+				return nil
+			}
+			for _, pkg := range pkgs {
+				var names []string
+				for n := range pkg.Files {
+					names = append(names, n)
+				}
+				sort.Strings(names)
+				for _, n := range names {
+					ast.Inspect(pkg.Files[n], func(nd ast.Node) bool {
+						ce, ok := nd.(*ast.CallExpr)
+						if !ok || len(ce.Args) != 3 {
+							return true
+						}
+						sel, ok := ce.Fun.(*ast.SelectorExpr)
+						if !ok || sel.Sel.Name != "RegisterParsingCallback" {
+							return true
+						}
+						dir, ok := StringLit(ce.Args[1])
+						if !ok {
+							dir = "?"
+						}
+						fn := "?"
+						if id, ok := ce.Args[2].(*ast.Ident); ok {
+							fn = id.Name
+						}
+						out = append(out, [2]string{dir, fn})
+						return true
+					})
+				}
+			}
+			return nil
+		})
+		if err != nil {
+			return nil, err
+		}
+	}
+	return out, nil
+}
+
 func init() {
+	register("C09", func(repo string, o *Out) error {
+		cbs, err := registeredParsingCallbacks(repo, "caskethttp", "caskettls", "onevent")
+		if err != nil {
+			return err
+		}
+		cb := o.File("Registered")
+		var ps []string
+		for _, c := range cbs {
+			ps = append(ps, "("+LeanString(c[0])+", "+LeanString(c[1])+")")
+		}
+		fmt.Fprintf(cb, "/-- `casket.RegisterParsingCallback(serverType, directive, function)` call sites: the function runs\nright after the setups of that directive -/\ndef registeredParsingCallbacks : List (String × String) := [%s]\n\n", strings.Join(ps, ", "))
+		return nil
+	})
 	register("C09", func(repo string, o *Out) error {
 		names, err := registeredPlugins(repo, "caskethttp", "caskettls", "onevent")
 		if err != nil {
